@@ -25,13 +25,13 @@ MIN_NONTRIVIAL = {"quick": 150, "thorough": 600}
 def cases(tier, sd):
     lmax = 6 if tier == "quick" else 12
     out = [dict(kind='ortho', s=s, lmax=lmax) for s in range(-2, 3)]
-    for r in range(3 if tier == "quick" else 10):
+    for r in range(3 if tier == "quick" else 30):
         out.append(dict(kind='roundtrip', s=[-2, 0, 2, -1, 1][r % 5],
                         lmax=lmax - (r % 3), seed=100 * sd + r))
-    for r in range(4 if tier == "quick" else 16):
+    for r in range(4 if tier == "quick" else 60):
         out.append(dict(kind='interp', seed=100 * sd + r))
     modes = [(2, 2), (2, -1), (3, 0), (4, -3), (2, 0), (3, 3), (5, 2), (4, 4)]
-    for r in range(4 if tier == "quick" else 8):
+    for r in range(4 if tier == "quick" else 16):
         l0, m0 = modes[(r + sd) % len(modes)]
         out.append(dict(kind='psi4', l0=l0, m0=m0, seed=100 * sd + r,
                         method=['linear', 'cubic'][r % 2] if tier == "thorough" else 'linear',
